@@ -2,7 +2,7 @@ From Coq Require Import List NArith ZArith Bool Permutation.
 Import ListNotations.
 Require Import MV.Common.Interleave MV.C10.Model MV.C10.Spec MV.C10.Exec
                MV.C10.ProofsConc MV.C10.ProofsConc2 MV.C10.ProofsSeq MV.C10.ExecProofs
-               MV.C10.ProofsBound MV.C10.ProofsRefine MV.C10.ProofsWire MV.C10.ProofsSound MV.C10.ProofsSuffix.
+               MV.C10.ProofsBound MV.C10.ProofsRefine MV.C10.ProofsWire MV.C10.ProofsSound MV.C10.ProofsSuffix MV.C10.ProofsAbs MV.C10.ProofsCompose.
 Open Scope N_scope.
 Require Import MV.C10.Properties.
 
@@ -135,3 +135,27 @@ Check (C10_idle_once_suffix : forall fx f c0 s0 c sched,
   exists s1 i1, (s1 = s0 \/ exists d, s1 = d :: s0) /\ Qinv c0 s1 i1 c' /\
                 (sent (fst c') = s1 \/ (i1 = false /\ sent (fst c') = 0 :: s1))).
 Print Assumptions C10_idle_once_suffix.
+Check (C10_absolute_no_wrap_hazard_free : forall A, A < two64 ->
+  forall f ps sched, Forall (abs_prog A) ps -> one_flusher f ps -> safe (init_config ps) sched ->
+  let c := fst (exec (step all_fixed) site (init_config ps) sched) in
+  Forall (fun d => d <= A) (sent (fst c) ++ rawd (fst c) ++ lost (fst c)) /\
+  cur (cnt (fst c)) <= A /\
+  (~ W (snd c) -> last (cnt (fst c)) <= cur (cnt (fst c))) /\
+  (forall u l v, nth_error (snd c) u = Some l -> pcl l = PB3 true v -> last (cnt (fst c)) = v)).
+Print Assumptions C10_absolute_no_wrap_hazard_free.
+Check (C10_idle_once_suffix_in_flight : forall fx f c0 s0 c sched,
+  PreIn f c0 s0 c ->
+  let c' := fst (exec (step fx) site c sched) in
+  (PreIn f c0 s0 c' /\ sent (fst c') = s0) \/
+  exists s0', (s0' = s0 \/ exists d, s0' = d :: s0) /\
+    ((Pre f c0 s0' c' /\ sent (fst c') = s0') \/
+     exists s1 i1, (s1 = s0' \/ exists d, s1 = d :: s0') /\ Qinv c0 s1 i1 c' /\
+                   (sent (fst c') = s1 \/ (i1 = false /\ sent (fst c') = 0 :: s1)))).
+Print Assumptions C10_idle_once_suffix_in_flight.
+Check (C10_spec_ok_on_model_keys : forall c, o_max c < 4294967296 -> ops_wf c -> hist_wf c ->
+  exists fl, run_case (CSeq c) = OSeq fl /\
+    forallb (fun k => counter_ok (flat_map (projC k) (o_ops c)) (obs_counter k fl)
+                      && gauge_ok (flat_map (projG k) (o_ops c)) (obs_gauge k fl)
+                      && histogram_ok (o_samp c) (o_rsv c) (flat_map (projH k) (o_ops c)) (obs_hist k fl))
+            (keyids c) = true).
+Print Assumptions C10_spec_ok_on_model_keys.
